@@ -133,37 +133,70 @@ Section Func.
   Lemma cfg_zconsts : zconsts c = zero_consts sl.
   Proof. unfold c, mk_cfg, fn. simpl. rewrite all_sops_simple. reflexivity. Qed.
 
-  Lemma init_alloc_sub : forall r, In r (allocatable (stk a0)) -> In r pool /\ ~ In r (used_registers fn).
+  Lemma dedupZ_In : forall l x, In x (dedupZ l) <-> In x l.
   Proof.
-    intros r Hr. unfold a0, init_state in Hr. simpl in Hr.
-    destruct (stack_get_ok pool allow) as [Hb [Hsub _]].
-    destruct (exclude_all (used_registers fn) _ Hb) as [_ [Hex _]].
-    destruct (Hex r Hr) as [H1 H2]. split; [apply Hsub; exact H1 | exact H2].
+    induction l as [|y t IH]; intros x; simpl; [tauto|].
+    destruct (memZ y t) eqn:Em.
+    - rewrite IH. split; [intros H; right; exact H|]. intros [H|H]; [subst; apply memZ_In; exact Em | exact H].
+    - simpl. rewrite IH. tauto.
   Qed.
+
+  Lemma somes_In : forall (l : list (option Z)) x, In (Some x) l -> In x (somes l).
+  Proof.
+    induction l as [|[y|] t IH]; intros x H; simpl in *; [destruct H| |].
+    - destruct H as [H|H]; [inversion H; left; reflexivity | right; apply IH; exact H].
+    - destruct H as [H|H]; [discriminate | apply IH; exact H].
+  Qed.
+
+  Lemma pre_in_used : forall v r, ty0 fn v = Some r -> In r (used_registers fn).
+  Proof.
+    intros v r H. unfold used_registers. apply dedupZ_In. apply in_or_app. left. apply somes_In.
+    unfold ty0 in H. simpl in H. simpl. rewrite <- H.
+    destruct (nth_in_or_default v pre None) as [Hnin|Hd]; [exact Hnin | rewrite Hd in H; discriminate].
+  Qed.
+
+  Lemma init_facts :
+    excl_ok (stk a0)
+    /\ (forall r, In r (allocatable (stk a0)) -> In r pool /\ ~ In r (used_registers fn))
+    /\ allow_inf (stk a0) = allow
+    /\ (forall k, In k (map fst (reserved (stk a0))) <-> In k (used_registers fn) /\ k < 0).
+  Proof.
+    destruct (stack_get_ok pool allow) as [Hb [Hsub Hal]].
+    destruct (exclude_all (used_registers fn) _ (base_excl_ok _ Hb)) as [Hb' [Hexc [Hal' Hres]]].
+    unfold a0, init_state. simpl. split; [exact Hb'|]. split; [|split].
+    - intros r Hr. destruct (Hexc r Hr) as [H1 H2]. split; [apply Hsub; exact H1 | exact H2].
+    - simpl in Hal'. rewrite Hal'. exact Hal.
+    - intros k. simpl in Hres. rewrite Hres. rewrite (b_res _ Hb). simpl. tauto.
+  Qed.
+
+  Lemma init_alloc_sub : forall r, In r (allocatable (stk a0)) -> In r pool /\ ~ In r (used_registers fn).
+  Proof. exact (proj1 (proj2 init_facts)). Qed.
 
   Lemma init_sok : sok c t0 sl a0.
   Proof.
-    destruct Hin as [Hnn [Hex [Hzero Hpool]]].
-    destruct (stack_get_ok pool allow) as [Hb [Hsub Hal]].
-    destruct (exclude_all (used_registers fn) _ Hb) as [Hb' [Hexc Hal']].
-    fold (init_state pool allow fn) in *.
-    assert (Hstk : stk a0 = fold_left (fun s r => exclude_register r s) (used_registers fn) (stack_get pool allow))
-      by reflexivity.
-    assert (Hav_pool : forall r, In r (available (stk a0)) -> In r (allocatable (stk a0))).
-    { rewrite Hstk. exact (b_sub _ Hb'). }
+    destruct Hin as [Hzero Hpool].
+    destruct init_facts as [He [Hsub [Hal Hres]]].
+    assert (Hav_pool : forall r, In r (available (stk a0)) -> 0 <= r).
+    { intros r Hr. apply Hpool. exact (proj1 (Hsub r (e_sub _ He r Hr))). }
+    assert (Hisres : forall k, is_reserved k (stk a0) = true <-> In k (used_registers fn) /\ k < 0).
+    { intros k. unfold is_reserved. rewrite memZ_In. exact (Hres k). }
     constructor.
-    - rewrite Hstk. exact (b_nodup_av _ Hb').
-    - intros r Hr. left. exact (Hav_pool r Hr).
-    - intros r Hr Hneg. exfalso.
-      destruct (init_alloc_sub r (Hav_pool r Hr)) as [Hp _]. pose proof (Hpool r Hp). lia.
-    - intros v r Hr Hneg. exfalso. unfold a0, init_state in Hr. simpl in Hr.
-      pose proof (Hnn v r Hr). lia.
-    - rewrite Hstk. rewrite (b_next _ Hb'). lia.
-    - rewrite Hstk. exact (b_res _ Hb').
-    - intros r [w Hw]. split; [exact (Hnn w r Hw)|].
-      intros Hc. destruct (init_alloc_sub r Hc) as [Hp Hnu]. exact (Hnu (Hex w r Hw Hp)).
+    - exact (e_nodup_av _ He).
+    - intros r Hr. left. exact (e_sub _ He r Hr).
+    - intros r Hr. destruct (is_reserved r (stk a0)) eqn:E; [|reflexivity].
+      apply Hisres in E. pose proof (Hav_pool r Hr). lia.
+    - intros r Hr Hneg. pose proof (Hav_pool r Hr). lia.
+    - intros v r Hr Hneg. unfold a0, init_state in Hr. simpl in Hr.
+      assert (Hk : is_reserved r (stk a0) = true). { apply Hisres. split; [exact (pre_in_used v r Hr) | exact Hneg]. }
+      unfold is_reserved in Hk. apply memZ_In in Hk. split; [exact (proj2 (e_res_neg _ He r Hk))|].
+      right. exists v. exact Hr.
+    - exact (e_next _ He).
+    - intros k Hk. unfold is_reserved in Hk. apply memZ_In in Hk. exact (e_res_neg _ He k Hk).
+    - intros r [w Hw]. split.
+      + intros _ Hc. exact (proj2 (Hsub r Hc) (pre_in_used w r Hw)).
+      + intros Hneg. apply Hisres. split; [exact (pre_in_used w r Hw) | exact Hneg].
     - intros Hz. unfold c, mk_cfg in Hz. simpl in Hz. destruct (Hzero Hz) as [Hn0 Hnp]. split.
-      + intro Hc. destruct (init_alloc_sub 0 Hc) as [Hp _]. exact (Hn0 Hp).
+      + intro Hc. exact (Hn0 (proj1 (Hsub 0 Hc))).
       + intros [w Hw]. exact (Hnp w Hw).
     - intros v r Hr. exact Hr.
     - intros v Hz Hr. exfalso. unfold c, mk_cfg in Hz. simpl in Hz.
@@ -173,11 +206,7 @@ Section Func.
   Qed.
 
   Lemma init_allow : allow_inf (stk a0) = allow.
-  Proof.
-    destruct (stack_get_ok pool allow) as [Hb [_ Hal]].
-    destruct (exclude_all (used_registers fn) _ Hb) as [_ [_ Hal']].
-    unfold a0, init_state. simpl. simpl in Hal'. rewrite Hal'. exact Hal.
-  Qed.
+  Proof. exact (proj1 (proj2 (proj2 init_facts))). Qed.
 
   Lemma func_is_walk : allocate_func zr pool allow fn = allocate_sops c sl a0.
   Proof. unfold allocate_func. simpl. apply allocate_block_simple. Qed.
